@@ -10,10 +10,11 @@ import SymmModel.Driver.Heap2H
 import SymmModel.Driver.DTypeFlowH
 import SymmModel.Driver.CheckH
 import SymmModel.Driver.RandH
+import SymmModel.Driver.SparseH
 open Lean SymmModel.Driver
 
 /-- plug-in handlers of the self-contained property models are tried in order -/
-def handlers : List (String → Json → Option (D Json)) := [handleCore, handleSym, handleHam, handleTrunc, handleFermiOps, handleReshape, handleCache, handleHeap, handleHeap2, handleDFlow, handleCheck, handleRand]
+def handlers : List (String → Json → Option (D Json)) := [handleCore, handleSym, handleHam, handleTrunc, handleFermiOps, handleReshape, handleCache, handleHeap, handleHeap2, handleDFlow, handleCheck, handleRand, handleSparse]
 
 def handleLine (line : String) : Json :=
   match Json.parse line with
